@@ -35,6 +35,36 @@ DATES_UTC = [(1970, 1, 1), (1999, 12, 31), (2000, 2, 29), (2049, 12, 31)]
 DATES_GT = DATES_UTC + [(1000, 1, 1), (9999, 12, 31)]
 
 
+def predicted_ms_text(cls, dt):
+    """recorded finding T2: fromDateTime writes the millisecond count without zero padding"""
+    text = dt.strftime('%Y%m%d%H%M%S' if cls is useful.GeneralizedTime else '%y%m%d%H%M%S')
+    text += '.%d' % (dt.microsecond // 1000)
+    off = dt.utcoffset()
+    if off:
+        secs = int(off.total_seconds())
+        text += ('-' if secs < 0 else '+') + '%.2d%.2d' % (abs(secs) // 3600, abs(secs) % 3600 // 60)
+    else:
+        text += 'Z'
+    return text
+
+
+def predicted_canonicaliser(s):
+    """recorded finding T1: the CER/DER time encoder deletes EVERY zero among the first three fraction
+    digits (leading and interior ones too) and looks no further than three digits"""
+    numbers = list(s)
+    if '.' not in numbers:
+        return s
+    idx = min(numbers.index('.') + 4, len(numbers) - 1)
+    while numbers[idx] != '.':
+        if numbers[idx] == '0':
+            del numbers[idx]
+        idx -= 1
+    idx += 1
+    if idx < len(numbers) and numbers[idx] == 'Z':
+        del numbers[idx - 1]
+    return ''.join(numbers)
+
+
 def tz(minutes):
     if minutes is None:
         return None
@@ -81,6 +111,8 @@ def part_a(R):
             goff = back.utcoffset()
             goff = None if goff is None else int(goff.total_seconds() // 60)
             woff = off or 0
+            if us and text == predicted_ms_text(cls, dt):
+                feats = feats | {'kf:T2'}
             if got != want:
                 R.violation('a.instant', rec, '%s -> %r -> %s' % (dt.isoformat(), text, back.isoformat()),
                             'the same instant', 'type.useful', feats, idx)
@@ -181,6 +213,8 @@ def part_b(R):
                 continue
             # primitive form expected (short strings): content = data[2:]
             out = data[2:].decode('ascii', 'replace')
+            if out == predicted_canonicaliser(s) and out != s:
+                f2 = f2 | {'kf:T1'}
             probs = TM.canonical_problems(out, gen)
             if probs:
                 R.violation('b.not_canonical', rec, '%r -> %r: %s' % (s, out, ', '.join(probs)), 'canonical string',
